@@ -414,6 +414,14 @@ func (g *xGen) genOpX(txSys bool) hOp {
 		if g.r.chance(40) {
 			op.HasChk = true
 			fields, sets := g.w.allFields(st.Name)
+			if st.Parent == "" {
+				// a patch entered through the parent store may name fields of the child store that handles the entity
+				for _, c := range g.w.Stores {
+					if c.Parent == st.Name {
+						fields = append(fields, c.Fields...)
+					}
+				}
+			}
 			for _, f := range fields {
 				if g.r.chance(50) {
 					op.Checker = append(op.Checker, f.Name)
